@@ -24,9 +24,18 @@ pub fn tokenize(source: &str, file_id: &FileId) -> (Vec<Token>, Vec<Diagnostic>)
     let mut line: usize = 0;
     let mut col: usize = 0;
 
+    // Text that is not a token is reported as one problem for each run of
+    // such text (and not one problem for each character of the run). The run
+    // is the text, the start and end in the source and the line and column
+    // of the start.
+    let mut invalid: Option<(String, usize, usize, usize, usize)> = None;
+
     while let Some(token) = lexer.next() {
         match token {
             Ok(token_type) => {
+                if let Some(run) = invalid.take() {
+                    diagnostics.push(unexpected_text(run, file_id));
+                }
                 tokens.push(Token {
                     token_type: token_type.clone(),
                     span: SourceSpan {
@@ -42,21 +51,14 @@ pub fn tokenize(source: &str, file_id: &FileId) -> (Vec<Token>, Vec<Diagnostic>)
             }
             Err(_) => {
                 let span = lexer.span();
-                let span = SourceSpan::range(span.start, span.end).with_file_id(file_id);
-                diagnostics.push(Diagnostic::problem(
-                    ironplc_problems::Problem::UnexpectedToken,
-                    Label::span(
-                        span,
-                        format!(
-                            "The text '{}' is not valid IEC 61131-3 text at line {} colum {}.",
-                            lexer.slice(),
-                            // Add +1 to the line and column because these are displayed to users
-                            // having 1-index based positions.
-                            line + 1,
-                            col + 1,
-                        ),
-                    ),
-                ))
+                invalid = match invalid {
+                    // Nothing is between one text that is not a token and the next
+                    Some((mut text, start, _, start_line, start_col)) => {
+                        text.push_str(lexer.slice());
+                        Some((text, start, span.end, start_line, start_col))
+                    }
+                    None => Some((lexer.slice().into(), span.start, span.end, line, col)),
+                };
             }
         }
 
@@ -77,7 +79,31 @@ pub fn tokenize(source: &str, file_id: &FileId) -> (Vec<Token>, Vec<Diagnostic>)
         }
     }
 
+    if let Some(run) = invalid.take() {
+        diagnostics.push(unexpected_text(run, file_id));
+    }
+
     (tokens, diagnostics)
+}
+
+/// Creates the problem for a run of text that is not a token.
+fn unexpected_text(run: (String, usize, usize, usize, usize), file_id: &FileId) -> Diagnostic {
+    let (text, start, end, line, col) = run;
+    let span = SourceSpan::range(start, end).with_file_id(file_id);
+    Diagnostic::problem(
+        ironplc_problems::Problem::UnexpectedToken,
+        Label::span(
+            span,
+            format!(
+                "The text '{}' is not valid IEC 61131-3 text at line {} colum {}.",
+                text,
+                // Add +1 to the line and column because these are displayed to users
+                // having 1-index based positions.
+                line + 1,
+                col + 1,
+            ),
+        ),
+    )
 }
 
 #[cfg(test)]
